@@ -172,7 +172,7 @@ class Engine:
         cons = [z3.ULE(ln, maxlen)]
         if minlen:
             cons.append(z3.UGE(ln, minlen))
-        s = Str(base, bv(0), ln, True, maxlen)
+        s = Str(base, bv(0), ln, True, maxlen, None, maxlen)
         if utf8:
             cons += utf8_wf(s, maxlen)
         return s, cons
@@ -396,12 +396,33 @@ class Engine:
         outs = self.run_func(f, [], [], keep_state=True)
         if len(outs) != 1 or outs[0].kind != 'ret':
             raise Inconclusive(f'const evaluation of {f.name} is not a single returning path: {outs}')
-        v = outs[0].value
-        # constants may own heap cells: they live in a global constant heap merged into every state lazily
-        if outs[0].st.heap:
-            self.const_heap = getattr(self, 'const_heap', {})
-            self.const_heap.update(outs[0].st.heap)
+        self.const_heap = getattr(self, 'const_heap', {})
+        v = self.relocate(outs[0].st, outs[0].value, {})
+        self.const_heap.update(outs[0].st.heap)
+        if st is not None:
+            st.heap.update(self.const_heap)
         self.consts[key] = v
+        return v
+
+    def relocate(self, st, v, memo):
+        """move everything a constant's value points to (in its evaluation frames) into heap cells"""
+        if isinstance(v, Ref):
+            if v.frame == 'heap':
+                return v
+            k = (v.frame, v.local, v.proj)
+            if k not in memo:
+                hid = next(self.heap_ctr)
+                memo[k] = Ref('heap', hid)
+                st.heap[hid] = self.relocate(st, self.read_ref(st, v), memo)
+            return memo[k]
+        if isinstance(v, Adt):
+            return Adt(v.ty, v.variant, [self.relocate(st, x, memo) for x in v.fields])
+        if isinstance(v, Tup):
+            return Tup([self.relocate(st, x, memo) for x in v.fields])
+        if isinstance(v, Seq):
+            return Seq([self.relocate(st, x, memo) for x in v.items], v.kind)
+        if isinstance(v, Closure):
+            return Closure(v.fn, [self.relocate(st, x, memo) for x in v.caps])
         return v
 
     def closure_fn_by_span(self, st, span):
@@ -425,6 +446,9 @@ class Engine:
             return self.eval_const(st, s[6:])
         if s.startswith('no_retag '):
             return self.eval_operand(st, s[9:])
+        if re.match(r'^[A-Za-z_<]', s):
+            # function items / unit constants are printed without the `const` keyword in operand position
+            return self.eval_const(st, s)
         raise ValueError('operand? ' + s)
 
     def eval_rvalue(self, st, s, dest_ty=None):
@@ -770,9 +794,10 @@ class Engine:
 
     def do_return(self, st, val, base_depth):
         fr = st.frames.pop()
-        del st.fmap[fr.fid]
         if len(st.frames) == base_depth:
+            # the entry frame stays addressable: constants / promoteds return references into it
             st.result = ('ret', val); return
+        del st.fmap[fr.fid]
         caller = st.frames[-1]
         if fr.ret_dest is not None:
             l, p = fr.ret_dest
